@@ -95,6 +95,13 @@ type Stream struct {
 	// Timeout settings (matches HTCondor's Stream timeout behavior)
 	timeout            time.Duration // Socket timeout duration (0 = no timeout)
 	cryptoBeforeSecret bool          // Saved encryption state before sending/receiving secret
+
+	// recvRejected is set once an inbound frame of a protected stream was refused
+	// (failed authentication, or a shape no protected frame can have). Such a
+	// stream is dead for receiving: the sender's sequence cannot be rejoined, and
+	// carrying on would hand the tail of the interrupted message to the
+	// application as if it were a message of its own.
+	recvRejected error
 }
 
 // CEDAR protocol constants based on HTCondor's reli_sock.cpp
@@ -296,6 +303,9 @@ func (s *Stream) SendPartialMessage(ctx context.Context, data []byte) error {
 // Uses HTCondor CEDAR protocol format:
 // [1 byte: end flag] [4 bytes: message length in network order] [message data]
 func (s *Stream) ReceiveFrame(ctx context.Context) ([]byte, error) {
+	if s.recvRejected != nil {
+		return nil, s.recvRejected
+	}
 	// Read HTCondor-style header (5 bytes)
 	header := make([]byte, NormalHeaderSize)
 	if err := s.readWithContext(ctx, header); err != nil {
@@ -308,11 +318,17 @@ func (s *Stream) ReceiveFrame(ctx context.Context) ([]byte, error) {
 
 	// Validate message size
 	if messageLength > MaxMessageSize {
+		if s.gcm != nil && s.encrypted {
+			s.recvRejected = fmt.Errorf("message too large: %d bytes (max %d)", messageLength, MaxMessageSize)
+		}
 		return nil, fmt.Errorf("message too large: %d bytes (max %d)", messageLength, MaxMessageSize)
 	}
 
 	// Validate end flag (HTCondor uses values 0-10)
 	if endFlag > 10 {
+		if s.gcm != nil && s.encrypted {
+			s.recvRejected = fmt.Errorf("invalid end flag: %d", endFlag)
+		}
 		return nil, fmt.Errorf("invalid end flag: %d", endFlag)
 	}
 
@@ -321,6 +337,7 @@ func (s *Stream) ReceiveFrame(ctx context.Context) ([]byte, error) {
 		// A protected frame always carries at least its 16-byte tag; an empty
 		// frame here is unauthenticated and would let a third party end or
 		// split a message.
+		s.recvRejected = fmt.Errorf("zero-length frame on an encrypted stream")
 		return nil, fmt.Errorf("zero-length frame on an encrypted stream")
 	}
 	if messageLength == 0 {
@@ -338,6 +355,7 @@ func (s *Stream) ReceiveFrame(ctx context.Context) ([]byte, error) {
 	if s.gcm != nil && s.encrypted {
 		decryptedData, err := s.decryptDataWithAAD(messageData, header)
 		if err != nil {
+			s.recvRejected = fmt.Errorf("failed to decrypt message: %w", err)
 			return nil, fmt.Errorf("failed to decrypt message: %w", err)
 		}
 		clearData = decryptedData
@@ -357,6 +375,9 @@ func (s *Stream) ReceiveFrame(ctx context.Context) ([]byte, error) {
 
 // ReceiveFrameWithEnd receives a message and returns both data and end flag
 func (s *Stream) ReceiveFrameWithEnd(ctx context.Context) ([]byte, byte, error) {
+	if s.recvRejected != nil {
+		return nil, 0, s.recvRejected
+	}
 	// Read HTCondor-style header (5 bytes)
 	header := make([]byte, NormalHeaderSize)
 	if err := s.readWithContext(ctx, header); err != nil {
@@ -369,11 +390,17 @@ func (s *Stream) ReceiveFrameWithEnd(ctx context.Context) ([]byte, byte, error) 
 
 	// Validate message size
 	if messageLength > MaxMessageSize {
+		if s.gcm != nil && s.encrypted {
+			s.recvRejected = fmt.Errorf("message too large: %d bytes (max %d)", messageLength, MaxMessageSize)
+		}
 		return nil, 0, fmt.Errorf("message too large: %d bytes (max %d)", messageLength, MaxMessageSize)
 	}
 
 	// Validate end flag (HTCondor uses values 0-10)
 	if endFlag > 10 {
+		if s.gcm != nil && s.encrypted {
+			s.recvRejected = fmt.Errorf("invalid end flag: %d", endFlag)
+		}
 		return nil, 0, fmt.Errorf("invalid end flag: %d", endFlag)
 	}
 
@@ -382,6 +409,7 @@ func (s *Stream) ReceiveFrameWithEnd(ctx context.Context) ([]byte, byte, error) 
 		// A protected frame always carries at least its 16-byte tag; an empty
 		// frame here is unauthenticated and would let a third party end or
 		// split a message.
+		s.recvRejected = fmt.Errorf("zero-length frame on an encrypted stream")
 		return nil, 0, fmt.Errorf("zero-length frame on an encrypted stream")
 	}
 	if messageLength == 0 {
@@ -404,6 +432,7 @@ func (s *Stream) ReceiveFrameWithEnd(ctx context.Context) ([]byte, byte, error) 
 	if s.gcm != nil && len(messageData) > 0 {
 		decryptedData, err := s.decryptDataWithAAD(messageData, header)
 		if err != nil {
+			s.recvRejected = fmt.Errorf("failed to decrypt message: %w", err)
 			return nil, 0, fmt.Errorf("failed to decrypt message: %w", err)
 		}
 		clearData = decryptedData
